@@ -70,7 +70,7 @@ def standard(ctx, mcs, gen_kv=None, release=False, **meta):
 
 def plan_c05(ctx):
     r = standard(ctx, [dict(module='MC_Ids')],
-                 rule='cells: every (face,quintant,position) for res<=5 (quick) / <=7 (thorough), every face x quintant x digit '
+                 rule='cells: every (face,quintant,position) for res<=5 (quick) / <=8 (thorough), every face x quintant x digit '
                       'pattern (all-0, all-d, alternating, single digit, random) for deeper res; IDs: layout-built for every 6-bit top '
                       'value; hex: boundaries, single bits, cell patterns, random values, hostile strings. distinct_nontrivial = '
                       'codec events with res>=2 (curve digits present) + hexparse strings',
